@@ -254,6 +254,27 @@ type c12RegCfg struct {
 	minNets, prefixNets []Subnet // as the registrar split them (recomputed by the monitor from conf)
 }
 
+// c12PrefixID: mostly ids the prefix package knows (-1 = random), 1 in 6 an id prefix.TryFromID rejects (typo / newer build),
+// so that overridePrefix fails AFTER the subnet and address were chosen.  (10 is not used: TryFromID lets it through and returns a
+// nil prefix, a crash that belongs to C19 / C11.)
+func c12PrefixID(r *rand.Rand) int {
+	if r.Intn(6) == 0 {
+		return []int{11, 12, 42, 99, 1000, -2, -7}[r.Intn(7)]
+	}
+	return r.Intn(11) - 1
+}
+
+// c12Usable reports whether a substitution drawing this override subnet can succeed at all.
+func c12Usable(s Subnet) bool {
+	if s.CIDR.IPNet == nil || s.CIDR.IPNet.IP.To4() == nil {
+		return false
+	}
+	if s.Transport == "Prefix_Transport" && (s.PrefixId < -1 || s.PrefixId > 9) {
+		return false
+	}
+	return true
+}
+
 func c12Weight(r *rand.Rand) float64 {
 	// every non-zero weight is >= 10 % of the total for up to 4 subnets: 1 / (1 + 3*2.5) = 0.1176
 	return []float64{1, 1.25, 1.5, 2, 2.5, 1.07}[r.Intn(6)]
@@ -316,10 +337,15 @@ func c12GenRegCfg(r *rand.Rand, idx int, sc *c12SubCfg) *c12RegCfg {
 		if nPre >= 3 && i == 1 && r.Intn(6) == 0 {
 			w = 0
 		}
-		ents = append(ents, fmt.Sprintf("[[override_subnet]]\ncidr = %q\nweight = %v\nport = %d\ntransport = \"Prefix_Transport\"\nprefix_id = %d\n", ovNet(), w, []int{443, 80, 53, 22, 8080, 1}[r.Intn(6)], r.Intn(11)-1))
+		ents = append(ents, fmt.Sprintf("[[override_subnet]]\ncidr = %q\nweight = %v\nport = %d\ntransport = \"Prefix_Transport\"\nprefix_id = %d\n", ovNet(), w, []int{443, 80, 53, 22, 8080, 1}[r.Intn(6)], c12PrefixID(r)))
 	}
 	if r.Intn(8) == 0 {
 		ents = append(ents, fmt.Sprintf("[[override_subnet]]\ncidr = %q\nweight = 5\nport = 443\ntransport = \"Obfs4_Transport\"\n", ovNet()))
+	}
+	if r.Intn(8) == 0 {
+		// an override subnet the v4-only substitution cannot draw from: the override step fails midway and must leave everything as it was
+		tr := []string{"Min_Transport", "Prefix_Transport"}[r.Intn(2)]
+		ents = append(ents, fmt.Sprintf("[[override_subnet]]\ncidr = \"fd00:10:%x::/64\"\nweight = 1.5\nport = 443\ntransport = %q\nprefix_id = 1\n", r.Intn(0xffff), tr))
 	}
 	// interleave the transports the way an operator's file might
 	r.Shuffle(len(ents), func(i, j int) { ents[i], ents[j] = ents[j], ents[i] })
@@ -1461,7 +1487,7 @@ func (m *c12Mon) distribution() {
 		}
 		var unused, nz []int
 		for i, s := range nets {
-			if s.Weight > 0 && s.Weight/total >= 0.1 {
+			if s.Weight > 0 && s.Weight/total >= 0.1 && c12Usable(s) {
 				nz = append(nz, i)
 				if ta.used[i] == 0 {
 					unused = append(unused, i)
